@@ -183,9 +183,16 @@ namespace occa {
 
       const int arrayCount = (int) arrays.size();
       for (int i = 0; i < arrayCount; ++i) {
-        primitive primSize = arrays[i].size->evaluate();
-        const int size = primSize.isNaN() ? -1 : primSize.to<int>();
-        dtype = dtype_t::tuple(dtype, size);
+        // [float x[]] or a size that is not a compile-time constant:
+        // a pointer to the entries
+        if (!arrays[i].canEvaluateSize()) {
+          continue;
+        }
+        primitive primSize = arrays[i].evaluateSize();
+        if (primSize.isNaN()) {
+          continue;
+        }
+        dtype = dtype_t::tuple(dtype, primSize.to<int>());
       }
 
       return dtype;
